@@ -337,16 +337,32 @@ DoneChoosingBodySource:
 	}
 
 	urlPath := path.Join(basePathURL.Path, pathPatternURL.Path)
-	for k, v := range r.pathParams {
-		urlPath = strings.ReplaceAll(urlPath, "{"+k+"}", url.PathEscape(v))
-	}
 	if reinstateSlash {
 		urlPath += "/"
 	}
 
-	req, err = http.NewRequestWithContext(context.Background(), r.method, urlPath, body)
+	// Escape the literal text of the template as well, then substitute all placeholders
+	// (in their escaped spelling) in a single pass: the result is a valid encoding that is
+	// kept verbatim as the URL's RawPath, and a substituted value is never scanned again.
+	// The path is not re-parsed, so an escaped value can neither be decoded again nor
+	// be mistaken for an authority.
+	oldnew := make([]string, 0, 2*len(r.pathParams))
+	for k, v := range r.pathParams {
+		oldnew = append(oldnew, escapeTemplate("{"+k+"}"), url.PathEscape(v))
+	}
+	escapedPath := strings.NewReplacer(oldnew...).Replace(escapeTemplate(urlPath))
+	unescapedPath, err := url.PathUnescape(escapedPath)
 	if err != nil {
 		return nil, err
+	}
+
+	req, err = http.NewRequestWithContext(context.Background(), r.method, "/", body)
+	if err != nil {
+		return nil, err
+	}
+	req.URL.Path = unescapedPath
+	if escapedPath != escapeTemplate(unescapedPath) {
+		req.URL.RawPath = escapedPath // as url.Parse does: only when it is not the default encoding
 	}
 
 	originalParams := r.GetQueryParams()
@@ -366,6 +382,11 @@ DoneChoosingBodySource:
 	req.Header = r.header
 
 	return req, nil
+}
+
+// escapeTemplate percent-escapes a path template the way url.URL.EscapedPath does.
+func escapeTemplate(p string) string {
+	return (&url.URL{Path: p}).EscapedPath()
 }
 
 func mangleContentType(mediaType, boundary string) string {
